@@ -94,6 +94,11 @@ def segment_bits(r, pad, body, depth=0):
 
 def bitstring_tlv(r, cls, num, bits):
     pad, body = bits_bytes(bits)
+    if not bits and r.random() < 0.4:
+        # the empty bit string in constructed form: no segments at all, or (nested) empty segments
+        k = r.random()
+        inner = b'' if k < 0.5 else tlv(r, 0, True, 3, b'') if k < 0.75 else tlv(r, 0, False, 3, b'\x00')
+        return tlv(r, cls, True, num, inner)
     if r.random() < 0.5 or len(bits) < 9:
         return tlv(r, cls, False, num, bytes([pad]) + body)
     k = r.randint(1, min(4, len(body)))
